@@ -113,7 +113,7 @@ func Mesh(r *rand.Rand, o MeshOpts) (modeling.Mesh, MeshDesc) {
 		maxV = 40
 	}
 	n := o.MinVerts + r.Intn(maxV-o.MinVerts+1)
-	if r.Intn(3) == 0 && maxV > 12 { // bias to small
+	if r.Intn(3) == 0 && maxV > 12 && o.MinVerts < 12 { // bias to small (never below an exact size asked for)
 		n = o.MinVerts + r.Intn(imin(12, maxV)-o.MinVerts+1)
 	}
 	if o.AllowEmpty && r.Intn(15) == 0 {
